@@ -533,6 +533,50 @@ impl<'a> VisitMut for Rw<'a> {
                             }
                         }
                     }
+                } else if name == "write" {
+                    // N6: write!(f, "{}", x) -> crate::sp::vp_write_display(f, &x)
+                    let parsed: Result<Punctuated<Expr, Token![,]>> = em.mac.parse_body_with(Punctuated::parse_terminated);
+                    if let Ok(mut args) = parsed {
+                        // macro arguments are opaque tokens for the visitor: normalise them explicitly
+                        for a in args.iter_mut() {
+                            self.visit_expr_mut(a);
+                        }
+                        // general form: write!(f, "lit{}lit{}..", a, b, ..) with only `{}` holes and string-like arguments
+                        // -> vp_write_parts(f, &[ "lit", a, "lit", b, .. ])
+                        if args.len() >= 3 {
+                            if let Expr::Lit(ExprLit { lit: Lit::Str(fs), .. }) = &args[1] {
+                                let fmt = fs.value();
+                                let pieces: Vec<&str> = fmt.split("{}").collect();
+                                if fmt != "{}" && pieces.len() == args.len() - 1 && !fmt.replace("{}", "").contains('{') {
+                                    let f = &args[0];
+                                    let mut parts: Vec<Expr> = vec![];
+                                    for (i, lit) in pieces.iter().enumerate() {
+                                        if !lit.is_empty() {
+                                            let l = LitStr::new(lit, Span::call_site());
+                                            parts.push(parse_quote!(#l));
+                                        }
+                                        if i + 2 < args.len() {
+                                            let a = &args[i + 2];
+                                            parts.push(parse_quote!(crate::sp::VpAsStr::vp_as_str(&#a)));
+                                        }
+                                    }
+                                    self.log.push(format!("N6 write!({}, {:?}, ..) -> vp_write_parts", f.to_token_stream(), fmt));
+                                    *e = parse_quote!(crate::sp::vp_write_parts(#f, &[#(#parts),*]));
+                                    return;
+                                }
+                            }
+                        }
+                        if args.len() == 3 {
+                            if let Expr::Lit(ExprLit { lit: Lit::Str(fs), .. }) = &args[1] {
+                                if fs.value() == "{}" {
+                                    let f = &args[0];
+                                    let x = &args[2];
+                                    self.log.push(format!("N6 write!({}, \"{{}}\", ..) -> vp_write_display", f.to_token_stream()));
+                                    *e = parse_quote!(crate::sp::vp_write_display(#f, &#x));
+                                }
+                            }
+                        }
+                    }
                 } else if name == "format" {
                     *e = self.rewrite_format(&em.mac);
                 } else if name == "unreachable" {
@@ -576,6 +620,14 @@ impl<'a> VisitMut for Rw<'a> {
                             }
                         }
                     }
+                }
+                // N13: x.hash(state) -> shim (the Hasher trait cannot carry a ghost trace in this Verus)
+                if mname == "hash" && mc.args.len() == 1 {
+                    let recv = (*mc.receiver).clone();
+                    let st = mc.args.first().unwrap().clone();
+                    self.log.push(format!("N13 {}.hash({}) -> crate::sp::vp_hash(&.., ..)", recv.to_token_stream(), st.to_token_stream()));
+                    *e = parse_quote!(crate::sp::vp_hash(&#recv, #st));
+                    return;
                 }
                 // N13: <&mut [u8] parameter>.as_ref() -> shim
                 if mname == "as_ref" && mc.args.is_empty() {
@@ -911,8 +963,13 @@ impl<'a> Planter<'a> {
         let dropb = self.drop_bodies.contains(key) || self.drop_bodies.contains(&qkey)
             || self.keep_only.as_ref().map(|k| !k.contains(key) && !k.contains(&qkey)).unwrap_or(false);
         if dropb && has_body {
-            *block = parse_quote!({ unimplemented!() });
-            attrs.push(parse_quote!(#[verifier::external_body]));
+            // The contract of a function whose body is dropped is ASSUMED.  The body becomes a diverging loop rather than
+            // `#[verifier::external_body]`: Verus walks body-less functions first when it orders solver contexts, and one
+            // whose contract names a ghost trait-impl function of the crate drags the exec methods of that impl in front
+            // of their own ghost definitions (DESIGN.md 11.4) -- other functions then fail for no semantic reason.
+            *block = parse_quote!({ loop {} });
+            attrs.push(parse_quote!(#[verifier::exec_allows_no_decreases_clause]));
+            attrs.push(parse_quote!(#[doc = "@vp-body-dropped: contract assumed"]));
             self.log.push(format!("DROP body of {} (assumed contract)", key));
         }
         let fc = match self.c.fns.get_mut(key) {
@@ -1670,9 +1727,11 @@ fn main() {
             }
         }
         text = format!("{}\n{}", consts_txt, text);
+        // Ghost items go FIRST in their module.  Verus orders solver contexts by a depth-first walk of the call graph in
+        // source order, and the body of a trait-method impl (`decode`, `encode`, `eq`, `from`) has no graph edge to the
+        // spec functions of the matching `...SpecImpl` block: it sees their definitions only if they were emitted earlier.
         if let Some(extra) = contracts.modules.get(if module.is_empty() { "root" } else { module }) {
-            text.push_str("\n// ---- ghost text appended from contracts (@module)\n");
-            text.push_str(extra);
+            text = format!("// ---- ghost text from contracts (@module), placed before the extracted code\n{}\n// ---- end of ghost text\n{}", extra, text);
         }
         let fname = if module.is_empty() { "root".to_string() } else { module.replace("::", "__") };
         fs::write(format!("{}/code_{}.rs", out_dir, fname), text).unwrap();
@@ -1690,6 +1749,9 @@ fn main() {
             name, name, seq_expr, lit));
     }
     fs::write(format!("{}/code_literals.rs", out_dir), lit_txt).unwrap();
+    // `@module ghost_first`: ghost trait-extension impls (`...SpecImpl for <crate type>`) that the assembler puts in a module
+    // BEFORE all extracted code (see the comment on ghost placement above)
+    fs::write(format!("{}/ghost_first.rs", out_dir), contracts.modules.get("ghost_first").cloned().unwrap_or_default()).unwrap();
 
     // unused contracts = function not found in source
     for (k, f) in &contracts.fns {
